@@ -100,6 +100,7 @@ class _RunOne:
         if isinstance(case, dict) and seed % 10 == 3 and not case.get("skip"):
             # configuration swarm: the library's loggers at DEBUG in 10 % of the runs
             case["_log_level"] = 10
+            agg.count("fault:log_level_DEBUG(runs)")
         res = safe_execute(mod, case)
         if res.get("fail_case") is not None:
             case = res["fail_case"]
